@@ -490,8 +490,8 @@ func (s *Sim) Run() {
 				runnable = append(runnable, t)
 			}
 		}
-		if len(runnable) == 0 && len(held) > 0 {
-			// whoever they wait for cannot run either: release the holds
+		if len(runnable) == 0 && len(held) > 0 && len(sleepers) == 0 {
+			// whoever they wait for cannot run either (and nobody is merely asleep): release the holds
 			for _, t := range held {
 				t.HoldAt = -1
 			}
